@@ -43,6 +43,8 @@ type sim struct {
 	recvRich *wallet.Wallet
 	users   []*wallet.Wallet
 	clock   time.Time
+	lastCrafted *accountant.Vertex
+	lastCls string
 }
 
 func (s *sim) now() time.Time {
@@ -351,6 +353,7 @@ func (s *sim) crafted(n *Node, ni int, budget int) {
 		v.Transaction.Spice.Currency++ // transaction altered after signing
 	}
 	cls := n.add(&v, budget)
+	s.lastCrafted, s.lastCls = &v, cls
 	if cls == "ROk" || cls == "RParentMissing" {
 		if cls == "ROk" {
 			s.bal[t.IssuerAddress] -= int64(t.Spice.Currency)
